@@ -22,7 +22,7 @@ def optNatList (j : Json) (k : String) : Option (List Nat) :=
   match j.getObjVal? k with | .ok (.arr a) => some (natList (.arr a)) | _ => none
 
 def getField (j : Json) : Field :=
-  { name := getStr j "name", subName := optStr j "subName", ty := getNat j "ty", isAttr := getBool j "isAttr",
+  { name := getStr j "name", subName := optStr j "subName", ty := getNat j "ty", isAttr := getBool j "isAttr", isData := getBool j "isData",
     inner := getNat j "inner", use := optStr j "use", minOccurs := optStr j "minOccurs",
     maxOccurs := optStr j "maxOccurs", nillable := getBool j "nillable" }
 
@@ -45,7 +45,8 @@ def getCls (j : Json) : Cls :=
 def getMeth (j : Json) : Meth :=
   { name := getStr j "name", opName := getStr j "opName", inMsg := getNat j "inMsg", outMsg := getNat j "outMsg",
     inHeader := optNatList j "inHeader", outHeader := optNatList j "outHeader",
-    faults := natList ((j.getObjVal? "faults").toOption.getD (.arr #[])), portType := optStr j "portType" }
+    faults := natList ((j.getObjVal? "faults").toOption.getD (.arr #[])), portType := optStr j "portType",
+    doc := optStr j "doc" }
 
 def getSvc (j : Json) : Svc :=
   { name := getStr j "name", portTypes := strList ((j.getObjVal? "portTypes").toOption.getD (.arr #[])),
@@ -103,7 +104,7 @@ def typeJson (pm : List (String × Pref)) (t : TypeDef) : Json :=
     ("elems", arrJson (fun (p : Particle) => Json.mkObj [("name", p.name), ("type", qnJson pm p.type),
         ("min", osJson p.minOccurs), ("max", osJson p.maxOccurs), ("nillable", p.nillable)]) t.elems),
     ("attrs", arrJson (fun (a : AttrDecl) => Json.mkObj [("name", a.name), ("type", qnJson pm a.type), ("use", osJson a.use)]) t.attrs),
-    ("enums", strsJson t.enums)]
+    ("enums", strsJson t.enums), ("dataBases", arrJson (qnJson pm) t.dataBases)]
 
 def schemaJson (pm : List (String × Pref)) (s : Schema) : Json :=
   Json.mkObj [("tns", s.tns), ("imports", strsJson s.imports), ("types", arrJson (typeJson pm) s.types),
@@ -121,7 +122,7 @@ def docJson (d : Doc) : Json :=
     ("services", arrJson (fun (s : Service) => Json.mkObj [("name", s.name),
         ("ports", arrJson (fun (p : Port) => Json.mkObj [("name", p.name), ("binding", qnJson pm p.binding), ("location", p.location)]) s.ports)]) d.services),
     ("portTypes", arrJson (fun (pt : PortType) => Json.mkObj [("name", pt.name),
-        ("ops", arrJson (fun (o : Op) => Json.mkObj [("name", o.name), ("paramOrder", o.paramOrder), ("inName", o.inName),
+        ("ops", arrJson (fun (o : Op) => Json.mkObj [("name", o.name), ("doc", osJson o.doc), ("paramOrder", o.paramOrder), ("inName", o.inName),
             ("inMsg", qnJson pm o.inMsg), ("outName", o.outName), ("outMsg", qnJson pm o.outMsg),
             ("faults", arrJson (fun (f : OpFault) => Json.mkObj [("name", f.name), ("message", qnJson pm f.message)]) o.faults)]) pt.ops)]) d.portTypes),
     ("bindings", arrJson (fun (b : Binding) => Json.mkObj [("name", b.name), ("type", qnJson pm b.type), ("transport", b.transport),
